@@ -213,8 +213,27 @@ class ArffLineReader(Filter[str, Sequence[str]]):
 
         return self.filter(line)
 
+    _r_sparse_item = re.compile(r"""\s*([^\s,]+)\s+('(?:[^'\\]|\\.)*'|"(?:[^"\\]|\\.)*"|[^\s,]+)\s*(?:,|$)""")
+
+    def _sparse_quoted(self, line:str) -> Sequence[str]:
+        #a value in quotes can contain blanks, commas and braces so the items can't be found with a simple split
+        line = line.strip()[1:-1]
+        keys_and_vals = []
+        pos = 0
+        while line[pos:].strip():
+            item = self._r_sparse_item.match(line,pos)
+            if not item:
+                raise CobaException(f"We were unable to parse a line in a way that matched the expected attributes.")
+            key,val = item.groups()
+            keys_and_vals.extend([key, _unescape(val[1:-1]) if val[0] in self._quotes else val])
+            pos = item.end()
+        return keys_and_vals or ['']
+
     def _sparse(self, line:str) -> Mapping[int,str]:
-        keys_and_vals = re.split('\s*,\s*|\s+', line.strip("} {"))
+        if "'" in line or '"' in line:
+            keys_and_vals = self._sparse_quoted(line)
+        else:
+            keys_and_vals = re.split('\s*,\s*|\s+', line.strip("} {"))
 
         if keys_and_vals != ['']:
             keys = list(map(int,keys_and_vals[0::2]))
